@@ -36,6 +36,13 @@ def _is_empty(t, v, ctx):
         return False
 
 
+def _open_type_octets(t, v, ctx):
+    try:
+        return (_bits(t, v, ctx).nbits() + 7) // 8
+    except Exception:
+        return 0
+
+
 def _own_tag(t, env):
     """Does the implementation see a tag on this member type? (a textual tag, or a
     reference to a type that carries one)"""
@@ -208,6 +215,8 @@ def features(term, value, env, tags='EXPLICIT', ext_implied=False, codec='per', 
                         try:
                             w = ref_per.Writer(aligned)
                             ref_per.enc_components(list(a.members), v, w, ctx, 'group')
+                            if (w.nbits() + 7) // 8 >= 16384:
+                                feats.add('open-type>=16k')
                             nopt = sum(1 for m in a.members if m.q in ('O', 'D'))
                             if w.nbits() == nopt and not any(w.buf) and not w.acc:
                                 feats.add('group-zero-width')
@@ -217,6 +226,8 @@ def features(term, value, env, tags='EXPLICIT', ext_implied=False, codec='per', 
                     present_adds += 1
                     if _is_empty(a.t, v[a.name], ctx):
                         feats.add('empty-open-type')
+                    if _open_type_octets(a.t, v[a.name], ctx) >= 16384:
+                        feats.add('open-type>=16k')
             if present_adds and aligned and len(t.adds) > 64:
                 feats.add('small-length>64-aligned')
             if present_adds and len(t.adds) > 127:
@@ -245,6 +256,8 @@ def features(term, value, env, tags='EXPLICIT', ext_implied=False, codec='per', 
                         feats.add('small-number>=64-aligned')
                     if _is_empty(m.t, v[1], ctx):
                         feats.add('empty-open-type')
+                    if _open_type_octets(m.t, v[1], ctx) >= 16384:
+                        feats.add('open-type>=16k')
                     walk(m.t, v[1], False)
             return
 
@@ -343,6 +356,10 @@ def c05_size_extension_not_implemented(f):
 
 def c05_extension_length_not_fragmented(f):
     return _has(f, 'ext-outside-root-16k', ANY)
+
+
+def c05_open_type_length_not_fragmented(f):
+    return _has(f, 'open-type>=16k', ANY)
 
 
 def c05_choice_index_textual_order(f):
